@@ -64,6 +64,10 @@ def parse_ty(s):
         return "none"
     if s == "ReferenceTuple":
         return REFTUPLE
+    if s == "DuplicateSummary":
+        return ("tuple", ("Record", "Record", "str"), "DuplicateSummary")
+    if s == "RecordKey":
+        return ("tuple", ("str", "str", "str", "str"), "RecordKey")
     m = re.fullmatch(r"(list|set|List|Set|Sequence|Iterable|Collection)\[(.+)\]", s)
     if m:
         return ("set" if m.group(1).lower() == "set" else "list", parse_ty(m.group(2)))
@@ -74,6 +78,8 @@ def parse_ty(s):
     m = re.fullmatch(r"tuple\[(.+)\]", s)
     if m:
         return ("tuple", tuple(parse_ty(x) for x in _split_top(m.group(1), ",")), None)
+    if s in ("dict", "list"):
+        raise Unsupported(f"untyped container annotation {s}")
     raise Unsupported(f"type {s}")
 
 
@@ -169,6 +175,11 @@ class VExc(V):
 
 class VOpaque(V):
     """A value the engine does not interpret (loggers, messages)."""
+
+
+def _plain(ty):
+    """Optional[T] used as a dict value that was filtered truthy is stored as T."""
+    return ty[1] if isinstance(ty, tuple) and ty[0] == "opt" else ty
 
 
 def ty_of(v):
@@ -687,6 +698,8 @@ class Engine:
         self.module = "api"
         self.cur_func = None
         self.loop_counter = 0
+        self.loop_stack = []
+        self.cur_func_node = None
         self.spec_sides = None          # list collecting (cond T, exc name) in code mode
         self.in_spec = 0
 
@@ -1011,7 +1024,10 @@ class Engine:
     def ev_Dict(self, node, env, st):
         if node.keys:
             raise Unsupported("non-empty dict display")
-        return VDict(lambda k: FALSE, lambda k: (_ for _ in ()).throw(Unsupported("value of empty dict")), "str", "str")
+        junk = self.ctx.fresh("junk", "str")
+        d = VDict(lambda k: FALSE, lambda k: junk, "str", "str")
+        d.empty = True
+        return d
 
     # ---- generators -> quantifiers -----------------------------------------------------
     def iter_bind(self, gen_iter, target, env, st):
@@ -1183,10 +1199,91 @@ class Engine:
                     self._guards = old_guards
                     c.bound.pop()
                 return VList(src.n, at, ety)
-        raise Unsupported("list comprehension with filter / nested generators (no order-preserving characterisation)")
+        return self.general_listcomp(node, env, st)
+
+    def general_listcomp(self, node, env, st):
+        """[elt for ... if ...] with filters / nested generators: a fresh list characterised by membership
+        (every element comes from a source tuple passing the filters; every such tuple contributes an
+        element). Order and multiplicity are left unspecified, which is all the contracts rely on."""
+        c = self.ctx
+        if c.bound:
+            raise Unsupported("filtered / nested list comprehension under a binder")
+        ety_box = []
+        self.comp(node.generators, env, st, lambda env2: (ety_box.append(ty_of(self.ev(node.elt, env2, st))) or TRUE), "any")
+        if not ety_box:
+            raise Unsupported("cannot type the comprehension element")
+        ety = ety_box[0]
+        L = c.fresh("lc", ("list", ety))
+        j = c.bvar("j", "Int")
+        c.bound.append(j)
+        try:
+            src_exists = self.comp(node.generators, env, st, lambda env2: veq(c, L.at(j), self.ev(node.elt, env2, st), st), "any")
+        finally:
+            c.bound.pop()
+        c.assumptions.append(ForAll([j], Implies(And(Le(Int(0), j), Lt(j, L.n)), src_exists)))
+
+        def covered(env2):
+            e = self.ev(node.elt, env2, st)
+            k = c.bvar("k", "Int")
+            return Exists([k], And(Le(Int(0), k), Lt(k, L.n), veq(c, L.at(k), e, st)))
+        c.assumptions.append(self.comp(node.generators, env, st, covered, "all"))
+        return L
 
     def ev_DictComp(self, node, env, st):
-        raise Unsupported("dict comprehension in spec position")
+        """{k: v for x in xs if c}: domain = keys of passing sources; value = that of the LAST passing source
+        with this key (sources must range over one list so that 'last' is an index comparison)."""
+        c = self.ctx
+        if c.bound:
+            raise Unsupported("dict comprehension under a binder")
+        if len(node.generators) != 1:
+            raise Unsupported("dict comprehension over nested generators")
+        g = node.generators[0]
+        if isinstance(g.iter, ast.Call) and isinstance(g.iter.func, ast.Attribute) and g.iter.func.attr == "items":
+            src_d = self.ev(g.iter.func.value, env, st)
+            if not isinstance(src_d, VDict):
+                raise Unsupported("dict comprehension over .items() of a non-dict")
+            # keys of a dict are distinct: a source is identified by its key
+            kb = c.bvar("k", c.sort(src_d.kty))
+            kv = c.wrap(kb, src_d.kty)
+            def at_src(kv_):
+                env2 = dict(env)
+                env2.update(self.bind_target(g.target, VTuple([kv_, src_d.get(kv_)])))
+                ok = And(src_d.has(kv_), *[truthy(c, self.ev(cn, env2, st)) for cn in g.ifs])
+                return ok, self.ev(node.key, env2, st), self.ev(node.value, env2, st)
+            ok0, key0, val0 = at_src(kv)
+            D = c.fresh("dc", ("dict", ty_of(key0), _plain(ty_of(val0))))
+            x = c.bvar("x", c.sort(D.kty))
+            xv = c.wrap(x, D.kty)
+            c.assumptions.append(ForAll([x], Eq(D.has(xv), Exists([kb], And(ok0, veq(c, key0, xv, st))))))
+            # value: if the key expression is injective on sources the value is determined; we state it for
+            # sources whose key is produced by no other passing source
+            kb2 = c.bvar("k2", c.sort(src_d.kty))
+            ok2, key2, _ = at_src(c.wrap(kb2, src_d.kty))
+            unique = ForAll([kb2], Implies(And(ok2, veq(c, key2, key0, st)), Eq(kb2, kb)))
+            c.assumptions.append(ForAll([kb], Implies(And(ok0, unique), veq(c, D.get(key0), val0, st))))
+            return D
+        xs = self.ev(g.iter, env, st)
+        if isinstance(xs, VOpt):
+            xs = xs.val
+        if not isinstance(xs, VList):
+            raise Unsupported("dict comprehension over " + type(xs).__name__)
+
+        def at(i):
+            env2 = dict(env)
+            env2.update(self.bind_target(g.target, xs.at(i)))
+            ok = And(Le(Int(0), i), Lt(i, xs.n), *[truthy(c, self.ev(cn, env2, st)) for cn in g.ifs])
+            return ok, self.ev(node.key, env2, st), self.ev(node.value, env2, st)
+        i = c.bvar("i", "Int")
+        ok0, key0, val0 = at(i)
+        D = c.fresh("dc", ("dict", ty_of(key0), _plain(ty_of(val0))))
+        x = c.bvar("x", c.sort(D.kty))
+        xv = c.wrap(x, D.kty)
+        c.assumptions.append(ForAll([x], Eq(D.has(xv), Exists([i], And(ok0, veq(c, key0, xv, st))))))
+        j = c.bvar("j", "Int")
+        okj, keyj, _ = at(j)
+        last = ForAll([j], Implies(And(Lt(i, j), okj), Not(veq(c, keyj, key0, st))))
+        c.assumptions.append(ForAll([i], Implies(And(ok0, last), veq(c, D.get(key0), val0, st))))
+        return D
 
     # ---- calls (pure builtins, helpers, string methods) ----------------------------------
     def ev_Call(self, node, env, st):
